@@ -1,4 +1,5 @@
 import ArgMapper.Model.Reach
+import ArgMapper.Proofs.Once
 /-!
 # C11 (sequential) — a run-once function executes at most once; later uses see that result
 
@@ -36,31 +37,59 @@ def OnceEverywhere (ops : List CallOp) (fid : Nat) : Prop :=
   ∀ op ∈ ops, (op.target.id = fid → op.target.once = true) ∧
     ∀ k f, op.c.funcOf k = some f → f.id = fid → f.once = true
 
+/-- the history invariant (`Once.Good`) is preserved by one call -/
+theorem stepCall_good (fid : Nat) (h : HistSt) (op : CallOp)
+    (hop : (op.target.id = fid → op.target.once = true) ∧
+      ∀ k f, op.c.funcOf k = some f → f.id = fid → f.once = true)
+    (hg : Once.Good fid h.memo h.log) : Once.Good fid (stepCall h op).memo (stepCall h op).log := by
+  have hp := Once.callWith_pres fid op.c hop.2 op.cgr op.target hop.1 op.fuel
+    { initSt op.cgr.cg h.memo op.orc with count := h.count }
+  exact hp h.log (by simpa [initSt] using hg)
+
+theorem foldl_stepCall_good (fid : Nat) (ops : List CallOp) (h : HistSt)
+    (hops : ∀ op ∈ ops, (op.target.id = fid → op.target.once = true) ∧
+      ∀ k f, op.c.funcOf k = some f → f.id = fid → f.once = true)
+    (hg : Once.Good fid h.memo h.log) :
+    Once.Good fid (ops.foldl stepCall h).memo (ops.foldl stepCall h).log := by
+  induction ops generalizing h with
+  | nil => exact hg
+  | cons op rest ih =>
+    rw [List.foldl_cons]
+    exact ih _ (fun o ho => hops o (List.mem_cons_of_mem _ ho))
+      (stepCall_good fid h op (hops op List.mem_cons_self) hg)
+
+theorem runHistory_good (ops : List CallOp) (fid : Nat) (h : OnceEverywhere ops fid) :
+    Once.Good fid (runHistory ops).memo (runHistory ops).log :=
+  foldl_stepCall_good fid ops _ h (Once.Good_nil fid)
+
 /-- **C11_once_sequential (at most once)** — over any history, the body of a run-once function is
 invoked at most once -/
 theorem once_at_most_once (ops : List CallOp) (fid : Nat) (h : OnceEverywhere ops fid) :
-    ((runHistory ops).log.filter (fun e => e.fid == fid)).length ≤ 1 := by
-  sorry
+    ((runHistory ops).log.filter (fun e => e.fid == fid)).length ≤ 1 :=
+  (runHistory_good ops fid h).1
 
 /-- **C11_once_sequential (first result kept)** — once it has executed, its memo cell holds the result
 of that execution for the rest of the history -/
 theorem first_result_kept (ops : List CallOp) (fid : Nat) (h : OnceEverywhere ops fid) (ev : ExecEv)
     (hev : ev ∈ (runHistory ops).log) (hf : ev.fid = fid) :
-    ∃ m, mapGet (runHistory ops).memo fid = some m ∧ m.res = ev.res := by
-  sorry
+    ∃ m, mapGet (runHistory ops).memo fid = some m ∧ m.res = ev.res :=
+  (runHistory_good ops fid h).2 ev hev hf
 
 /-- … and every use served from the memo returns exactly that result (outputs or error) without
 executing anything -/
 theorem memo_hit (c : Ctx) (f : FuncDesc) (am : ArgMap) (s : CallSt) (m : Memo) (hf : f.once = true)
     (hm : mapGet s.memo f.id = some m) :
     callDirect c f am s = (.ok (m.res, m.unwrapped), s) := by
-  sorry
+  unfold callDirect
+  rw [hf, if_pos rfl, hm]
 
 /-- with the memoised slice copied before unwrapping (repair of F15) a memoised pointer-struct result
 can be reused: `outputValues` never panics -/
 theorem reuse_never_panics (c : Ctx) (hc : c.memoCopy = true) (f : FuncDesc) (r : BehOut) (unw : Bool) (s : CallSt) :
     ∃ s', outputValues c f r unw s = .ok s' := by
-  sorry
+  unfold outputValues
+  rw [if_neg (by simp [hc])]
+  exact ⟨_, rfl⟩
 
 /-- before that repair it did panic on the second use (finding F15) -/
 def cexFunc : FuncDesc :=
@@ -78,6 +107,6 @@ theorem counterexample_ptr_result :
         { store := [], last := none, inputSet := [], memo := [], log := [], count := [], orc := [] } with
       | .error (.panic .elemOnStruct) => true
       | _ => false) = true := by
-  sorry
+  simp [outputValues, cexCtx, cexFunc]
 
 end ArgMapper.C11
